@@ -363,6 +363,18 @@ func runC10(c *fw.Case) {
 		}},
 		{"Filter with unsupported comparator name", "Filter", func() qframe.QFrame { return qf.Filter(qframe.Filter{Column: iC, Comparator: "~=", Arg: 1}) }},
 		{"Filter int column with string argument", "Filter", func() qframe.QFrame { return qf.Filter(qframe.Filter{Column: iC, Comparator: "=", Arg: "x"}) }},
+		{"Filter int column in a list of strings", "Filter", func() qframe.QFrame {
+			return qf.Filter(qframe.Filter{Column: iC, Comparator: "in", Arg: []interface{}{"a", "b"}})
+		}},
+		{"Filter int column in a []string", "Filter", func() qframe.QFrame {
+			return qf.Filter(qframe.Filter{Column: iC, Comparator: "in", Arg: []string{"a"}})
+		}},
+		{"Filter string column in a list of ints", "Filter", func() qframe.QFrame {
+			return qf.Filter(qframe.Filter{Column: sC, Comparator: "in", Arg: []interface{}{1, 2}})
+		}},
+		{"Filter string column in a mixed list", "Filter", func() qframe.QFrame {
+			return qf.Filter(qframe.Filter{Column: sC, Comparator: "in", Arg: []interface{}{"a", 2}})
+		}},
 		{"Filter bool column with int argument", "Filter", func() qframe.QFrame { return qf.Filter(qframe.Filter{Column: bC, Comparator: "=", Arg: 1}) }},
 		{"Filter string column with function of int", "Filter", func() qframe.QFrame {
 			return qf.Filter(qframe.Filter{Column: sC, Comparator: func(x int) bool { cb.hit(); return true }})
@@ -389,9 +401,15 @@ func runC10(c *fw.Case) {
 		{"Copy from unknown column", "Copy", func() qframe.QFrame { return qf.Copy("x", "nope") }},
 		{"Copy to illegal name", "Copy", func() qframe.QFrame { return qf.Copy("$x", iC) }},
 		{"Distinct on unknown column", "Distinct", func() qframe.QFrame { return qf.Distinct(groupby.Columns("nope")) }},
-		{"GroupBy on unknown column", "Aggregate", func() qframe.QFrame { return qf.GroupBy(groupby.Columns("nope")).Aggregate(qframe.Aggregation{Fn: "sum", Column: iC}) }},
-		{"Aggregate unknown column", "Aggregate", func() qframe.QFrame { return qf.GroupBy(groupby.Columns(bC)).Aggregate(qframe.Aggregation{Fn: "sum", Column: "nope"}) }},
-		{"Aggregate with unknown function name", "Aggregate", func() qframe.QFrame { return qf.GroupBy(groupby.Columns(bC)).Aggregate(qframe.Aggregation{Fn: "nosuch", Column: iC}) }},
+		{"GroupBy on unknown column", "Aggregate", func() qframe.QFrame {
+			return qf.GroupBy(groupby.Columns("nope")).Aggregate(qframe.Aggregation{Fn: "sum", Column: iC})
+		}},
+		{"Aggregate unknown column", "Aggregate", func() qframe.QFrame {
+			return qf.GroupBy(groupby.Columns(bC)).Aggregate(qframe.Aggregation{Fn: "sum", Column: "nope"})
+		}},
+		{"Aggregate with unknown function name", "Aggregate", func() qframe.QFrame {
+			return qf.GroupBy(groupby.Columns(bC)).Aggregate(qframe.Aggregation{Fn: "nosuch", Column: iC})
+		}},
 		{"Aggregate with function of the wrong slice type", "Aggregate", func() qframe.QFrame {
 			return qf.GroupBy(groupby.Columns(bC)).Aggregate(qframe.Aggregation{Fn: func(v []float64) float64 { cb.hit(); return 0 }, Column: iC})
 		}},
@@ -406,7 +424,9 @@ func runC10(c *fw.Case) {
 		{"Apply two-argument function to columns of different types", "Apply", func() qframe.QFrame {
 			return qf.Apply(qframe.Instruction{Fn: func(x, y int) int { cb.hit(); return x }, DstCol: "x", SrcCol1: iC, SrcCol2: fC})
 		}},
-		{"Apply unknown built-in", "Apply", func() qframe.QFrame { return qf.Apply(qframe.Instruction{Fn: "NoSuchBuiltin", DstCol: "x", SrcCol1: sC}) }},
+		{"Apply unknown built-in", "Apply", func() qframe.QFrame {
+			return qf.Apply(qframe.Instruction{Fn: "NoSuchBuiltin", DstCol: "x", SrcCol1: sC})
+		}},
 		{"Apply copy of unknown column", "Apply", func() qframe.QFrame { return qf.Apply(qframe.Instruction{Fn: types.ColumnName("nope"), DstCol: "x"}) }},
 		{"FilteredApply with invalid clause", "FilteredApply", func() qframe.QFrame {
 			return qf.FilteredApply(qframe.Filter{Column: "nope", Comparator: "=", Arg: 1}, qframe.Instruction{Fn: func() int { cb.hit(); return 1 }, DstCol: "x"})
@@ -419,7 +439,9 @@ func runC10(c *fw.Case) {
 		{"Eval unknown column", "Eval", func() qframe.QFrame { return qf.Eval("x", qframe.Expr("abs", types.ColumnName("nope"))) }},
 		{"Eval malformed expression", "Eval", func() qframe.QFrame { return qf.Eval("x", qframe.Val([]interface{}{"+", 1, 2, 3})) }},
 		{"Eval expression without arguments", "Eval", func() qframe.QFrame { return qf.Eval("x", qframe.Expr("+")) }},
-		{"Eval mismatched operand types", "Eval", func() qframe.QFrame { return qf.Eval("x", qframe.Expr("+", types.ColumnName(iC), types.ColumnName(fC))) }},
+		{"Eval mismatched operand types", "Eval", func() qframe.QFrame {
+			return qf.Eval("x", qframe.Expr("+", types.ColumnName(iC), types.ColumnName(fC)))
+		}},
 		{"Eval to illegal destination", "Eval", func() qframe.QFrame { return qf.Eval("$x", qframe.Expr("abs", types.ColumnName(iC))) }},
 		{"Rolling on unknown column", "Rolling", func() qframe.QFrame { return qf.Rolling("sum", "x", "nope") }},
 	}
